@@ -100,6 +100,7 @@ func RunAlwaysOn(w *World, rec *BlockRecord, txs []*TxInfo) {
 		oracleC05(w.R, rec, t)
 		oracleC06Tx(w, rec, t)
 		oracleC15(w, rec, t)
+		oracleC02(w, rec, t)
 	}
 	w.R.At(rec.Height, -1)
 	oracleC06Block(w, rec)
